@@ -53,6 +53,11 @@ def cases(run: Run):
             c["dur"] = rng.choice([30.0, 600.0, 5400.0, 43200.0, 86400.0, rng.uniform(1, 86400)])
         c["t0"] = rng.choice([0.0, 0.0, 60.0, 86400.0, 12345.0])
         c["frac"] = rng.choice([0.5, 0.01, 0.99, rng.random()])
+        # a split point a fraction of a millisecond after the start or before the end (a clock that is a hair off a step boundary): a span that short
+        # is still a span, and the state moves 2-8 m in it
+        if c["kind"] == "split" and rng.random() < 0.3 and c["dur"] > 1.0:
+            off = rng.choice([2.5e-4, 9e-4, 5e-5, 4e-3])
+            c["frac"] = (off / c["dur"]) if rng.random() < 0.5 else (1.0 - off / c["dur"])
         c["K"] = rng.choice([2, 3, 5, 13])
         c["layout"] = rng.choice(["C", "F", "T", "slice"])
         c["ntimes"] = rng.choice([2, 3, 7])
@@ -72,6 +77,11 @@ def cases(run: Run):
             c["x0"] = [float(rng.randint(-50, 50)) for _ in range(3)] + [rng.randint(-8, 8) / 4.0 for _ in range(3)]
             c["times"] = sorted({float(rng.randint(1, int(span))) for _ in range(c["ntimes"])} | {span})
         out.append(c)
+    # pinned: two-body arcs split a fraction of a millisecond after the start and before the end (see the near-edge split points above)
+    for off, late in ((2.5e-4, False), (9e-4, True), (5e-5, True))[: run.n(3, 3)]:
+        dur = rng.choice([60.0, 600.0, 5400.0])
+        out.append({"kind": "split", "model": "two_body", "method": rng.choice(["RK45", "DOP853"]), "orbit": orbit(rng), "seed": rng.randint(0, 10**6), "dur": dur,
+                    "t0": rng.choice([0.0, 60.0]), "frac": (1.0 - off / dur) if late else off / dur, "K": 2, "layout": "C", "ntimes": 2})
     # a day-long perturbed arc of a high orbit with the Sun and the Moon, split after a third: over a day the third bodies move by a degree (Sun) and
     # thirteen (Moon), so anything that stops following them between calls, or from one stage to the next, shows
     for _ in range(run.n(1, 4)):
